@@ -15,6 +15,8 @@ import (
 	"github.com/form3tech-oss/f1/v2/internal/options"
 	"github.com/form3tech-oss/f1/v2/internal/trigger/api"
 	"github.com/form3tech-oss/f1/v2/internal/trigger/constant"
+	"github.com/form3tech-oss/f1/v2/internal/trigger/gaussian"
+	"github.com/form3tech-oss/f1/v2/internal/trigger/ramp"
 	"github.com/form3tech-oss/f1/v2/internal/trigger/staged"
 	"github.com/form3tech-oss/f1/v2/internal/ui"
 	"github.com/form3tech-oss/f1/v2/internal/workers"
@@ -57,7 +59,7 @@ func TestProp_WrappedRateCadence(t *testing.T) {
 		c := cadenceCase{
 			IntervalMs: rapid.OneOf(rapid.IntRange(2, 20), rapid.IntRange(2, 250)).Draw(rt, "intervalMs"),
 			RunMs:      rapid.OneOf(rapid.IntRange(50, 300), rapid.IntRange(50, 1200)).Draw(rt, "runMs"),
-			Profile:    rapid.SampledFrom([]string{"constant", "constant", "staged", "zero"}).Draw(rt, "profile"),
+			Profile:    rapid.SampledFrom([]string{"constant", "constant", "staged", "zero", "ramp", "gaussian"}).Draw(rt, "profile"),
 			N:          rapid.IntRange(1, 30).Draw(rt, "n"),
 			Dist:       rapid.SampledFrom([]string{"none", "none", "regular", "random"}).Draw(rt, "distribution"),
 			Conc:       rapid.OneOf(rapid.IntRange(1, 4), rapid.IntRange(1, 64)).Draw(rt, "concurrency"),
@@ -71,6 +73,21 @@ func TestProp_WrappedRateCadence(t *testing.T) {
 		case "zero":
 			c.N = 0
 			rates, err = constant.CalculateConstantRate(0, fmt.Sprintf("0/%dms", c.IntervalMs), c.Dist)
+		case "ramp":
+			a := rapid.IntRange(0, c.N).Draw(rt, "rampStart")
+			b := rapid.IntRange(0, c.N).Draw(rt, "rampEnd")
+			if a == b {
+				b = a + 1
+			}
+			c.Stages = fmt.Sprintf("ramp %d->%d", a, b)
+			rates, err = ramp.CalculateRampRate(fmt.Sprintf("%d/%dms", a, c.IntervalMs), fmt.Sprintf("%d/%dms", b, c.IntervalMs), c.Dist,
+				time.Duration(max(c.RunMs, c.IntervalMs))*time.Millisecond, 0)
+		case "gaussian":
+			// a window of 20 ticks around "now"; the bell is wide so most ticks request something
+			repeat := time.Duration(20*c.IntervalMs) * time.Millisecond
+			c.Stages = fmt.Sprintf("gaussian repeat=%s", repeat)
+			rates, err = gaussian.CalculateGaussianRate(float64(20*c.N), 0, repeat, time.Duration(c.IntervalMs)*time.Millisecond,
+				repeat/2, repeat, "", c.Dist)
 		case "staged":
 			var parts []string
 			parts = append(parts, fmt.Sprintf("0s:%d", rapid.IntRange(0, c.N).Draw(rt, "t0")))
